@@ -267,10 +267,10 @@ fn main() {
             let cfgs: Vec<(&str, u32, usize, usize, usize)> = if quick {
                 vec![("release", 2, 2, 2, 70), ("dbg", 2, 2, 2, 70)]
             } else {
-                vec![("release", 2, 2, 3, 150), ("release", 2, 3, 2, 0), ("release", 3, 2, 2, 70), ("dbg", 2, 2, 3, 150), ("dbg", 3, 2, 2, 70)]
+                vec![("release", 2, 2, 3, 150), ("release", 2, 3, 2, 0), ("release", 3, 2, 2, 0), ("dbg", 2, 2, 3, 150), ("dbg", 3, 2, 2, 0)]
             };
             for (profile, t, k, b, tall) in cfgs {
-                let cap_s: u64 = if quick { 45 } else { 900 };
+                let cap_s: u64 = if quick { 45 } else { 240 };
                 let lo = match loom_pass(profile, t, k, b, cap_s, tall) {
                     Ok(l) => l,
                     Err(m) => run.machinery_failure(&m),
